@@ -50,6 +50,8 @@ def render_chain(n, leaf, chain):
             tgt.append("int %s() { int t = 0; for (t = 0; t < (%s); t++) { } return t; }" % (nm, e)); e = nm + "()"
         elif link == "fwhile":
             tgt.append("int %s() { int t = 0; while (t < (%s)) { t++; } return t; }" % (nm, e)); e = nm + "()"
+        elif link == "fthenelse":
+            tgt.append("int %s() { int t = 0; if (t == 0) { t = %s; } else { t = 1; } return t; }" % (nm, e)); e = nm + "()"
         else:
             raise vf.MachineryError("unknown link " + link)
     return g, t, e, in_t
@@ -88,7 +90,7 @@ def inst_model(cs):
     hops = cs.get("hops", 0)
     hd = "".join("const int h%d = %s + %d; " % (k + 1, "N" if k == 0 else "h%d" % k, k % 2) for k in range(hops))
     top_name = "N" if hops == 0 else "h%d" % hops
-    ta = {"name": "TA", "params": "const int[1,2] N", "locations": [{"id": "id0"}], "init": "id0", "decl": hd + ("int a[%s];" % top_name if use == "arrsize" else ""),
+    ta = {"name": "TA", "params": "const int[1,2] N", "locations": [{"id": "id0"}], "init": "id0", "decl": hd + ({"size": "int a[%s];", "upper": "int a[int[0,%s]];", "lower": "int a[int[%s,5]];"}[cs.get("dim", "size")] % top_name if use == "arrsize" else ""),
           "edges": [{"src": "id0", "dst": "id0", "guard": "%s > 0" % top_name}] if use == "guard" else []}
     sysl, top = [], "TA"
     for k in range(cs["passes"]):
@@ -147,7 +149,7 @@ def run(tier):
             raise vf.MachineryError("instantiation model failed: %s" % json.dumps(r)[:800])
         msgs = [e["msg"] for e in r["dump"]["doc"]["errors"]]
         accepted = not msgs
-        key = "inst:%d:%s:%s:hops%d" % (cs["passes"], cs["end"], cs["use"], cs.get("hops", 0))
+        key = "inst:%d:%s:%s:hops%d:%s" % (cs["passes"], cs["end"], cs["use"], cs.get("hops", 0), cs.get("dim", "size"))
         rep = {"kind": "inst", "case": cs, "model": inst_model(cs), "diagnostics": msgs}
         if not cs["accepted"]:
             nontrivial += 1
